@@ -10,54 +10,11 @@
    * boolean table checks (`chain_ok`, `costs_ok`, ...) that Proofs/Targets*.v run by vm_compute on the generated tables. *)
 From Coq Require Import List ZArith QArith Bool String.
 From V.Model Require Import Greedy TargetsRt.
+From V.Model Require Export TargetsLogic.
 From G Require Import CoreQ Targets.
 Import ListNotations.
 Close Scope Q_scope.
 Open Scope Z_scope.
-
-(* ------------------------------------------------------------------ damage logics *)
-Inductive logic : Type :=
-| LSTR (l : STRBasedDamageLogic)
-| LINT (l : INTBasedDamageLogic)
-| LDEX (l : DEXBasedDamageLogic)
-| LLUK (l : LUKBasedDamageLogic)
-| LDual (l : LUKBasedDualSubDamageLogic).
-
-Definition logic_df (L : logic) : Stat -> Q -> Q :=
-  match L with
-  | LSTR l => STRBasedDamageLogic_get_damage_factor l
-  | LINT l => INTBasedDamageLogic_get_damage_factor l
-  | LDEX l => DEXBasedDamageLogic_get_damage_factor l
-  | LLUK l => LUKBasedDamageLogic_get_damage_factor l
-  | LDual l => LUKBasedDualSubDamageLogic_get_damage_factor l
-  end.
-
-Definition logic_armor_factor (L : logic) : Stat -> Q -> Q :=
-  match L with
-  | LSTR l => STRBasedDamageLogic_get_armor_factor l
-  | LINT l => INTBasedDamageLogic_get_armor_factor l
-  | LDEX l => DEXBasedDamageLogic_get_armor_factor l
-  | LLUK l => LUKBasedDamageLogic_get_armor_factor l
-  | LDual l => LUKBasedDualSubDamageLogic_get_armor_factor l
-  end.
-
-Definition logic_constant (L : logic) : Q :=
-  match L with
-  | LSTR l => STRBasedDamageLogic_attack_range_constant l
-  | LINT l => INTBasedDamageLogic_attack_range_constant l
-  | LDEX l => DEXBasedDamageLogic_attack_range_constant l
-  | LLUK l => LUKBasedDamageLogic_attack_range_constant l
-  | LDual l => LUKBasedDualSubDamageLogic_attack_range_constant l
-  end.
-
-Definition logic_mastery (L : logic) : Q :=
-  match L with
-  | LSTR l => STRBasedDamageLogic_mastery l
-  | LINT l => INTBasedDamageLogic_mastery l
-  | LDEX l => DEXBasedDamageLogic_mastery l
-  | LLUK l => LUKBasedDamageLogic_mastery l
-  | LDual l => LUKBasedDualSubDamageLogic_mastery l
-  end.
 
 (* the optimizer's state (Model/Greedy.v: list nat) as the Python list of ints *)
 Definition zs (st : state) : list Z := map Z.of_nat st.
